@@ -347,13 +347,18 @@ func runResponse(s respScenario) core.Result {
 		}
 		r.Class = "expect:" + string(want.K) + ifs(want.K == httpref.ToTarget, ":"+string(want.Src), "")
 		// NoCopyString only says how string memory is handed on: every delivered value is the same with and without it
-		for _, entry := range []string{"BinaryConv.Do", "HTTPConv.Do", "BinaryConv.Do,NoCopyString", "HTTPConv.Do,NoCopyString"} {
+		for _, entry := range []string{"BinaryConv.Do", "HTTPConv.Do", "BinaryConv.Do,NoCopyString", "HTTPConv.Do,NoCopyString", "BinaryConv.Do,options-by-SetOptions"} {
 			resp := dhttp.NewHTTPResponse()
 			var ob respObs
 			copts := s.convOpts()
 			copts.NoCopyString = strings.HasSuffix(entry, ",NoCopyString")
 			if strings.HasPrefix(entry, "BinaryConv.Do") {
 				cv := t2j.NewBinaryConv(copts)
+				if strings.HasSuffix(entry, "SetOptions") {
+					cv = t2j.NewBinaryConv(conv.Options{EnableHttpMapping: false, WriteHttpValueFallback: !copts.WriteHttpValueFallback, OmitHttpMappingErrors: !copts.OmitHttpMappingErrors,
+						UseKitexHttpEncoding: !copts.UseKitexHttpEncoding, NoBase64Binary: !copts.NoBase64Binary, WriteRequireField: !copts.WriteRequireField, WriteDefaultField: !copts.WriteDefaultField, WriteOptionalField: !copts.WriteOptionalField})
+					cv.SetOptions(copts)
+				}
 				ctx := context.WithValue(context.Background(), conv.CtxKeyHTTPResponse, resp)
 				ob.body, ob.err = cv.Do(ctx, desc, msg)
 				if resp.Response.Body != nil {
